@@ -1119,3 +1119,53 @@ Theorem C19_buf_tag_fetch_constbuf_refines : forall ok b, buf_inv b ->
     match nb with None => True | Some x => buf_inv x end.
 Proof. exact buf_tag_fetch_constbuf_refines. Qed.
 Print Assumptions C19_buf_tag_fetch_constbuf_refines.
+
+From CAres.Dsa Require Import Buf_gen_agree2.
+Theorem C19_buf_fetch_be32_agrees_generated : forall b old,
+  buf_inv b -> buf_bytes_ok (buf_remaining b) ->
+  exists st b' v v',
+    buf_fetch_be32 b = Ok (st, b', v) /\
+    c_ares_buf_fetch_be32 (b2z (cb_hasdata b)) (cb_dlen b) (cb_off b) (buf_memf b) old
+      = Ok (st, cb_off b', v') /\
+    (st = ARES_SUCCESS -> v' = v) /\ (st <> ARES_SUCCESS -> v' = old /\ b' = b).
+Proof. exact buf_fetch_be32_agrees_generated. Qed.
+Print Assumptions C19_buf_fetch_be32_agrees_generated.
+
+Theorem C19_buf_append_start_agrees_generated : forall junk ok b len ptr r,
+  ptr <> 0%Z ->
+  (len =? 0)%Z = false -> buf_ensure_space junk ok b len = Ok r ->
+  exists o,
+    buf_append_start junk ok b len = Ok (o, snd r) /\
+    c_ares_buf_append_start len (fst r) (cb_alloc (snd r)) (cb_dlen (snd r)) ptr
+      = Ok (match o with Some _ => ptr | None => 0%Z end, match o with Some n => n | None => len end).
+Proof. exact buf_append_start_agrees_generated. Qed.
+Print Assumptions C19_buf_append_start_agrees_generated.
+
+(* ares_llist_node_detach: the cells of the heap after the model's detach are the outputs of the
+   function generated from the C source (pointers encoded relative to the node: node = 1,
+   NULL = 0), under the local well-formedness the list invariant gives a member *)
+From CAres.Dsa Require Import LList_gen_agree.
+Theorem C19_llist_node_detach_agrees_generated : forall h n nd l L c,
+  nth_error (lh_nodes h) n = Some (Some nd) ->
+  ln_parent nd = Some l ->
+  nth_error (lh_lists h) l = Some (Some L) ->
+  ll_cnt L = S c -> (Z.of_nat (S c) < 2 ^ 64)%Z ->
+  (forall p, ln_prev nd = Some p -> p <> n /\ ll_node_at h (Some p) <> None) ->
+  (forall x, ln_next nd = Some x -> x <> n /\ ll_node_at h (Some x) <> None) ->
+  (forall p x, ln_prev nd = Some p -> ln_next nd = Some x -> p <> x) ->
+  forall nextprev_in prevnext_in,
+  (forall xd, ll_node_at h (ln_next nd) = Some xd -> nextprev_in = ll_enc n (ln_prev xd)) ->
+  (forall pd, ll_node_at h (ln_prev nd) = Some pd -> prevnext_in = ll_enc n (ln_next pd)) ->
+  exists h' L' nd',
+    ll_node_detach h (Some n) = Ok h' /\
+    ll_list_at h' l = Some L' /\ ll_node_at h' (Some n) = Some nd' /\
+    exists o1 o6,
+      c_ares_llist_node_detach (ll_enc n (ln_prev nd)) (ll_enc n (ln_next nd))
+                               (ll_enc n (ll_head L)) (ll_enc n (ll_tail L))
+                               (Z.of_nat (ll_cnt L)) (ll_enc n (ll_tail L)) (ll_enc n (ll_head L))
+                               nextprev_in prevnext_in
+        = Ok (o1, ll_enc n (ln_parent nd'), Z.of_nat (ll_cnt L'), ll_enc n (ll_head L'), ll_enc n (ll_tail L'), o6) /\
+      (forall xd', ll_node_at h' (ln_next nd) = Some xd' -> o1 = ll_enc n (ln_prev xd')) /\
+      (forall pd', ll_node_at h' (ln_prev nd) = Some pd' -> o6 = ll_enc n (ln_next pd')).
+Proof. exact ll_node_detach_agrees_generated. Qed.
+Print Assumptions C19_llist_node_detach_agrees_generated.
